@@ -3,7 +3,7 @@ from checks import pfcp_common as pc
 
 MANIFEST = dict(
     text="Kernel-checked for ALL histories (fold over arbitrary event lists, all oracles): the run never faults and the session table invariant holds (free list = released slots, duplicate-free; slot i holds SEID i+1, so live SEIDs are non-zero and unique); the look-up is exact for every SEID value (found iff live, else not found, never a fault); allocation returns a fresh non-zero SEID and leaves all others resolving as before; requests for a non-live SEID yield cause 65 / header SEID 0 and change nothing; a released SEID has no rule left in the data plane. Tie: the Coq model's step function is run (vm_compute) against the real PfcpServer over UDP loopback on generated histories incl. SEIDs 0, released, beyond the table, 2^63.., 2^64-1, and the statements are evaluated as monitors on the implementation's trace.",
-    note=' ',
+    note='Peers of the differential run include alias sockets (a second control-plane node behind one IP address, other source port); monitor rule: a live SEID stops resolving only at an event that ends its session (Deletion addressed to it, re-association, SEID-0 answer to the report that was about it). ',
     technique='Coq invariant proof over all histories + differential run of the model vs the real server + trace monitors',
     design='4/C04')
 
